@@ -22,10 +22,12 @@ ERR_COQ = {"index": "EIndex", "subvector": "ESubvector", "wider": "EWider", "ran
            "width0": "EWidth0", "resize": "EResize", "assert": "EAssert"}
 
 # Which rendering of the code the correspondence runs against:
-#   "coded" = Models/Fixed.v `agrees`       : /repo as it is (reproduces its defects)
-#   "fixed" = Models/Fixed.v `agrees_fixed` : /repo after seeded/_proposed_fixes/C19_fix.diff
-# Switch the default to "fixed" when that patch is applied to /repo.
+#   "coded" = Models/Fixed.v `agrees`       : /repo as it is (the tree with the C19 fix commits)
+#   "eqfix" = Models/Fixed.v `agrees_eqfix` : /repo after seeded/_proposed_fixes/C19_eq_fix.diff
+#             (switch the default when that patch is applied; only `eq_num` differs)
 MODEL = os.environ.get("C19_MODEL", "coded")
+PRED = {"coded": "agrees", "eqfix": "agrees_eqfix"}[MODEL]
+RUN = {"coded": "run", "eqfix": "run_eqfix"}[MODEL]
 
 PREAMBLE = ("From Coq Require Import ZArith List Bool.\nImport ListNotations.\n"
             "From Cohdl Require Import Models.Fixed.\nLocal Open Scope Z_scope.\n")
@@ -326,7 +328,18 @@ CORPUS = [
     ["resize", "SFixed", 3, -1, 15, 3, 0, "ROUND", "SATURATE"],
     ["resize", "UFixed", 2, -1, 15, 2, 0, "ROUND", "SATURATE"],
     ["resize", "SFixed", 1, 0, 1, 5, 3, "ROUND", "WRAP"],
-    # one per leaf of resize_fn that behaves (SFixed, UFixed)
+    # regressions: one input per class that failed before the C19 fix commits (see C19_regressions)
+    ["resize", "UFixed", 1, 0, 1, 5, 3, "TRUNCATE", "WRAP"],
+    ["resize", "SFixed", 0, -1, 0, 0, 0, "ROUND", "WRAP"],
+    ["resize", "SFixed", 0, -1, -1, 0, 0, "ROUND", "SATURATE"],
+    ["resize", "SFixed", 0, 0, 0, -1, -1, "TRUNCATE", "SATURATE"],
+    ["resize", "SFixed", 0, 0, -1, -1, -1, "TRUNCATE", "SATURATE"],
+    ["resize", "UFixed", 0, 0, 0, -2, -2, "TRUNCATE", "SATURATE"],
+    ["resize", "UFixed", 0, 0, 1, -2, -2, "ROUND", "SATURATE"],
+    ["resize", "SFixed", 1, 0, -1, -1, -1, "TRUNCATE", "SATURATE"],
+    ["resize", "SFixed", 1, -2, -1, 0, -1, "ROUND", "SATURATE"],
+    ["resize", "SFixed", 2, -2, -3, 1, 0, "ROUND", "SATURATE"],
+    # one per leaf of resize_fn (SFixed, UFixed)
     ["resize", "SFixed", 3, -2, -19, 3, -2, "TRUNCATE", "WRAP"],
     ["resize", "SFixed", 3, -2, -19, 1, -3, "TRUNCATE", "WRAP"],
     ["resize", "SFixed", 3, -2, 13, -4, -5, "TRUNCATE", "WRAP"],
@@ -364,7 +377,7 @@ CORPUS = [
     ["ctor_fix", "UFixed", 4, -2, 3, -1, 5], ["ctor_fix", "SFixed", 2, -2, 3, -1, -5],
 ]
 
-# checked against the SPEC only (binary64 is not modelled): quotient magnitude >= 2^53
+# integers above 2^53 (regression of the float division in _adjust_val); model and spec
 BIG_CORPUS = [
     ["ctor_num", "SFixed", 60, 0, 2 ** 59 + 1, 0, "int"],
     ["ctor_num", "UFixed", 60, 0, 2 ** 59 + 1, 0, "int"],
@@ -514,8 +527,8 @@ def run(ck: common.Check, replay=None):
     ck.assumptions += [
         "constants only: SFixed/UFixed methods evaluated by CPython on constant objects; the same methods traced by the "
         "compiler on signals are not covered by this check",
-        "binary64 is not modelled: numbers reach the constructor model as exact m*2^e; integers whose quotient exceeds "
-        "2^53 are checked against the spec only",
+        "binary64 is not modelled: numbers reach the constructor model as exact m*2^e (the code's _adjust_val is exact "
+        "too; its range test uses floats, exact on every generated case)",
         "the theorems quantify over all formats and values; the correspondence model=code is established on the "
         "enumerated spaces (coverage.space) and the seeded wide cases only",
     ]
@@ -523,7 +536,8 @@ def run(ck: common.Check, replay=None):
         cases, space, big = [list(c) for c in replay["cases"]], {"replay": "%d cases" % len(replay["cases"])}, []
     else:
         cases, space = gen_cases(ck)
-        big = list(BIG_CORPUS)
+        cases = cases[:len(CORPUS)] + list(BIG_CORPUS) + cases[len(CORPUS):]
+        big = []
     ck.cov["space"] = space
     real = run_real(cases + big)
     real_big = real[len(cases):]
@@ -540,7 +554,7 @@ def run(ck: common.Check, replay=None):
         idx_of_term.append(i)
     shard = max(400, min(20000, -(-len(terms) // (2 * common.NCPU))))
     bad_terms = common.coq_bad_indices(ck, "c19", PREAMBLE, "op * out", terms,
-                                       "agrees_fixed" if MODEL == "fixed" else "agrees", shard=shard, timeout=3000)
+                                       PRED, shard=shard, timeout=3000)
     mismatch = set(idx_of_term[j] for j in bad_terms) | set(unrepresentable)
 
     # ---- spec on every real result
@@ -576,8 +590,7 @@ def run(ck: common.Check, replay=None):
     # ---- model != code where the spec is still satisfied: the model is out of date (or the change is harmless)
     stale = sorted(i for i in mismatch if i not in spec_bad)
     if stale:
-        diag = common.coq_eval_terms(ck, "c19diag", PREAMBLE, ["%s (%s)" % ("run_fixed" if MODEL == "fixed" else "run", case_coq(cases[i]))
-                                                                    for i in stale[:8]])
+        diag = common.coq_eval_terms(ck, "c19diag", PREAMBLE, ["%s (%s)" % (RUN, case_coq(cases[i])) for i in stale[:8]])
         groups = {}
         for i in stale:
             c = cases[i]
@@ -599,7 +612,6 @@ def run(ck: common.Check, replay=None):
     ck.cov["model"] = MODEL
     ck.cov["model_vs_code_mismatches"] = len(mismatch)
     ck.cov["spec_violating_cases"] = len(spec_bad)
-    ck.cov["spec_only_cases_(binary64)"] = len(big)
     for c, r in list(zip(cases, real))[:3] + list(zip(cases, real))[len(CORPUS) + 1000:len(CORPUS) + 1003]:
         ck.sample({"case": c, "real": r})
     if replay is None:
